@@ -27,6 +27,36 @@ theorem sqrt_fin_total (F : Fn α) (a : α) : sqrt F (fin a) = if a < 0 then nan
 @[simp] theorem eq_fin_ninf' (a : α) : eq (fin a) ninf = false := rfl
 @[simp] theorem eq_pinf_ninf : eq (pinf : X α) ninf = false := rfl
 @[simp] theorem eq_ninf_pinf : eq (ninf : X α) pinf = false := rfl
+@[simp] theorem sub_pinf_fin (a : α) : sub pinf (fin a) = pinf := rfl
+@[simp] theorem sub_ninf_fin (a : α) : sub ninf (fin a) = ninf := rfl
+@[simp] theorem sub_fin_pinf (a : α) : sub (fin a) pinf = ninf := rfl
+@[simp] theorem sub_fin_ninf (a : α) : sub (fin a) ninf = pinf := rfl
+@[simp] theorem add_fin_pinf (a : α) : add (fin a) pinf = pinf := rfl
+@[simp] theorem add_fin_ninf (a : α) : add (fin a) ninf = ninf := rfl
+@[simp] theorem le_fin_pinf (a : α) : le (fin a) pinf = true := rfl
+@[simp] theorem le_fin_ninf (a : α) : le (fin a) ninf = false := rfl
+@[simp] theorem le_pinf_fin (a : α) : le pinf (fin a) = false := rfl
+@[simp] theorem le_ninf_fin (a : α) : le ninf (fin a) = true := rfl
+@[simp] theorem isfinite_pinf : isfinite (pinf : X α) = false := rfl
+@[simp] theorem isfinite_ninf : isfinite (ninf : X α) = false := rfl
+@[simp] theorem sq_pinf : sq (pinf : X α) = pinf := rfl
+@[simp] theorem sq_ninf : sq (ninf : X α) = pinf := rfl
+@[simp] theorem neg_pinf : neg (pinf : X α) = ninf := rfl
+@[simp] theorem neg_ninf : neg (ninf : X α) = pinf := rfl
+@[simp] theorem abs_pinf : abs (pinf : X α) = pinf := rfl
+@[simp] theorem abs_ninf : abs (ninf : X α) = pinf := rfl
+@[simp] theorem exp_pinf (F : Fn α) : exp F (pinf : X α) = pinf := rfl
+@[simp] theorem exp_ninf (F : Fn α) : exp F (ninf : X α) = fin 0 := rfl
+@[simp] theorem div_fin_pinf (a : α) : div (fin a) pinf = fin 0 := rfl
+@[simp] theorem div_fin_ninf (a : α) : div (fin a) ninf = fin 0 := rfl
+theorem div_pinf_fin (b : α) (hb : 0 < b) : div pinf (fin b) = pinf := by simp [div, hb.le]
+theorem div_ninf_fin (b : α) (hb : 0 < b) : div ninf (fin b) = ninf := by simp [div, hb.le]
+theorem mul_fin_pinf (a : α) (ha : 0 < a) : mul (fin a) pinf = pinf := by simp [mul, mulInf, ha]
+theorem mul_fin_ninf (a : α) (ha : 0 < a) : mul (fin a) ninf = ninf := by simp [mul, mulInf, ha]
+theorem mul_neg_pinf (a : α) (ha : a < 0) : mul (fin a) pinf = ninf := by simp [mul, mulInf, ha, not_lt.2 ha.le]
+theorem mul_neg_ninf (a : α) (ha : a < 0) : mul (fin a) ninf = pinf := by simp [mul, mulInf, ha, not_lt.2 ha.le]
+theorem add_pinf_fin (a : α) : add pinf (fin a) = pinf := rfl
+theorem add_ninf_fin (a : α) : add ninf (fin a) = ninf := rfl
 end X
 
 namespace TermTie
@@ -202,5 +232,150 @@ theorem piShape_fin (F : Fn α) (a b c d h x : α) (hab : a < b) (hcd : c < d) :
   simp only [isnan_fin, sel_false, mul_fin, mul_one, lt_fin, le_fin, sub_fin, add_fin, sq_fin, div_fin _ _ hd1,
     div_fin _ _ hd2, sel_decide, half_mul]
   congr 1; split_ifs <;> ring
+
+/-! ### classes with transcendental functions: generic in `F`, side conditions as hypotheses -/
+
+theorem arc_fin (F : Fn α) (s e h x : α) (hse : s ≠ e) :
+    Gen.Term.Arc.membership F (fin s) (fin e) (fin h) (fin x) = fin (Mu.arc F s e h x) := by
+  unfold Gen.Term.Arc.membership Mu.arc
+  have hc : s + (e - s) = e := by ring
+  have hr : |e - s| ≠ 0 := abs_ne_zero.2 (sub_ne_zero.2 (Ne.symm hse))
+  simp only [add_fin, sub_fin, hc, sq_fin, abs_fin, isnan_fin, sel_false, mul_fin, mul_one, lt_fin, le_fin, pow_two]
+  rcases lt_or_gt_of_ne hse with h1 | h1
+  · have h2 : ¬ e < s := not_lt.2 h1.le
+    by_cases hx1 : s ≤ x
+    · by_cases hx2 : x ≤ e
+      · have hrad : 0 ≤ (e - s) * (e - s) - (x - e) * (x - e) := by nlinarith
+        simp [h1, h2, hx1, hx2, sqrt_fin F _ hrad, div_fin _ _ hr]
+      · have h3 : ¬ x ≤ s := by intro h; apply hx2; linarith
+        simp [h1, h2, hx1, hx2, h3, not_le.1 hx2, ofBool]
+    · have h3 : ¬ e ≤ x := by intro h; apply hx1; linarith
+      have h4 : ¬ e < x := by intro h; apply hx1; linarith
+      simp [h1, h2, hx1, h3, h4, ofBool]
+  · have h2 : ¬ s < e := not_lt.2 h1.le
+    by_cases hx1 : x ≤ s
+    · by_cases hx2 : e ≤ x
+      · have hrad : 0 ≤ (e - s) * (e - s) - (x - e) * (x - e) := by nlinarith
+        simp [h1, h2, hx1, hx2, sqrt_fin F _ hrad, div_fin _ _ hr]
+      · have h3 : ¬ s ≤ x := by intro h; apply hx2; linarith
+        simp [h1, h2, hx1, hx2, h3, not_le.1 hx2, ofBool]
+    · have h3 : ¬ x ≤ e := by intro h; apply hx1; linarith
+      have h4 : ¬ x < e := by intro h; apply hx1; linarith
+      simp [h1, h2, hx1, h3, h4, ofBool]
+
+theorem powNonneg_fin (F : Fn α) {a b : α} (ha : 0 ≤ a) (hb : 0 ≤ b) :
+    powNonneg F (fin a) (fin b) = fin (powNN F a b) := by
+  unfold powNonneg powNN
+  by_cases h1 : b = 0
+  · simp [h1]
+  · by_cases h2 : a = 0
+    · have : 0 < b := lt_of_le_of_ne hb (Ne.symm h1)
+      simp [h1, h2, this]
+    · have : ¬ a < 0 := not_lt.2 ha
+      simp [h1, h2, this]
+
+theorem powNN_nonneg (F : Fn α) (hpow : ∀ a b : α, 0 < a → 0 ≤ F.pow a b) {a : α} (ha : 0 ≤ a) (b : α) :
+    0 ≤ powNN F a b := by
+  unfold powNN
+  split_ifs with h1 h2
+  · exact zero_le_one
+  · exact le_refl _
+  · exact hpow a b (lt_of_le_of_ne ha (Ne.symm h2))
+
+theorem bell_fin (F : Fn α) (hpow : ∀ a b : α, 0 < a → 0 ≤ F.pow a b) (c w sl h x : α) (hw : 0 < w) (hsl : 0 ≤ sl) :
+    Gen.Term.Bell.membership F (fin c) (fin w) (fin sl) (fin h) (fin x) = fin (Mu.bell F c w sl h x) := by
+  unfold Gen.Term.Bell.membership Mu.bell
+  have ha : 0 ≤ |(x - c) / w| := abs_nonneg _
+  have hb : 0 ≤ 2 * sl := by linarith
+  have hden : 1 + powNN F |(x - c) / w| (2 * sl) ≠ 0 := by
+    have := powNN_nonneg F hpow ha (2 * sl); intro h0; linarith
+  have habs : |(x - c) / w| = |x - c| / w := by rw [abs_div, abs_of_pos hw]
+  simp only [isnan_fin, sel_false, mul_fin, mul_one, sub_fin, div_fin _ _ hw.ne', abs_fin, powNonneg_fin F ha hb,
+    add_fin, div_fin _ _ hden]
+  rw [habs, mul_one_div]
+
+theorem cosine_fin (F : Fn α) (c w h x : α) (hw : w ≠ 0) :
+    Gen.Term.Cosine.membership F (fin c) (fin w) (fin h) (fin x) = fin (Mu.cosine F c w h x) := by
+  unfold Gen.Term.Cosine.membership Mu.cosine
+  simp only [isnan_fin, isfinite_fin, Bool.true_and, sel_false, mul_fin, mul_one, sub_fin, add_fin, le_fin,
+    div_fin _ _ hw, cos_fin, ← Bool.decide_and, sel_decide, half_mul]
+  congr 1; split_ifs <;> ring
+
+theorem gaussian_fin (F : Fn α) (m sd h x : α) (hsd : sd ≠ 0) :
+    Gen.Term.Gaussian.membership F (fin m) (fin sd) (fin h) (fin x) = fin (Mu.gaussian F m sd h x) := by
+  unfold Gen.Term.Gaussian.membership Mu.gaussian
+  have hden : 2 * (sd * sd) ≠ 0 := by simp [hsd]
+  simp only [isnan_fin, sel_false, mul_fin, mul_one, sub_fin, sq_fin, neg_fin, div_fin _ _ hden, exp_fin, pow_two]
+
+theorem gaussianProduct_fin (F : Fn α) (ma sa mb sb h x : α) (hsa : sa ≠ 0) (hsb : sb ≠ 0) :
+    Gen.Term.GaussianProduct.membership F (fin ma) (fin sa) (fin mb) (fin sb) (fin h) (fin x) =
+      fin (Mu.gaussianProduct F ma sa mb sb h x) := by
+  unfold Gen.Term.GaussianProduct.membership Mu.gaussianProduct Mu.gaussian
+  have hda : 2 * (sa * sa) ≠ 0 := by simp [hsa]
+  have hdb : 2 * (sb * sb) ≠ 0 := by simp [hsb]
+  simp only [isnan_fin, sel_false, mul_fin, mul_one, one_mul, sub_fin, sq_fin, neg_fin, div_fin _ _ hda,
+    div_fin _ _ hdb, exp_fin, pow_two, lt_fin, sel_decide]
+  congr 1; ring
+
+theorem semiEllipse_fin (F : Fn α) (s e h x : α) (hse : s ≠ e) :
+    Gen.Term.SemiEllipse.membership F (fin s) (fin e) (fin h) (fin x) = fin (Mu.semiEllipse F s e h x) := by
+  unfold Gen.Term.SemiEllipse.membership Mu.semiEllipse
+  have h2 : (2 : α) ≠ 0 := two_ne_zero
+  rcases lt_or_gt_of_ne hse with h1 | h1
+  · have h1' : ¬ e < s := not_lt.2 h1.le
+    have hr : (e - s) / 2 ≠ 0 := by intro h0; have : e - s = 0 := by linarith [h0]
+                                    linarith
+    have hc : s + (e - s) / 2 = (s + e) / 2 := by ring
+    simp only [lt_fin, h1, h1', decide_true, decide_false, if_true, if_false, Bool.false_eq_true, min_eq_left h1.le,
+      max_eq_right h1.le, isnan_fin, sel_false, mul_fin, mul_one, sub_fin, add_fin, sq_fin, le_fin, div_fin _ _ h2, hc,
+      pow_two]
+    by_cases hx : s ≤ x ∧ x ≤ e
+    · have hrad : 0 ≤ (e - s) / 2 * ((e - s) / 2) - (x - (s + e) / 2) * (x - (s + e) / 2) := by
+        nlinarith [hx.1, hx.2]
+      simp [hx, hx.1, hx.2, sqrt_fin F _ hrad, max_eq_left hrad, div_fin _ _ hr]
+    · have : (decide (s ≤ x) && decide (x ≤ e)) = false := by simpa using hx
+      simp [hx, this]
+  · have h1' : ¬ s < e := not_lt.2 h1.le
+    have hr : (s - e) / 2 ≠ 0 := by intro h0; have : s - e = 0 := by linarith [h0]
+                                    linarith
+    have hc : e + (s - e) / 2 = (e + s) / 2 := by ring
+    simp only [lt_fin, h1, h1', decide_true, decide_false, if_true, if_false, Bool.false_eq_true, min_eq_right h1.le,
+      max_eq_left h1.le, isnan_fin, sel_false, mul_fin, mul_one, sub_fin, add_fin, sq_fin, le_fin, div_fin _ _ h2, hc,
+      pow_two]
+    by_cases hx : e ≤ x ∧ x ≤ s
+    · have hrad : 0 ≤ (s - e) / 2 * ((s - e) / 2) - (x - (e + s) / 2) * (x - (e + s) / 2) := by
+        nlinarith [hx.1, hx.2]
+      simp [hx, hx.1, hx.2, sqrt_fin F _ hrad, max_eq_left hrad, div_fin _ _ hr]
+    · have : (decide (e ≤ x) && decide (x ≤ s)) = false := by simpa using hx
+      simp [hx, this]
+
+theorem sigmoid_fin (F : Fn α) (hexp : ∀ a : α, 0 < F.exp a) (i sl h x : α) :
+    Gen.Term.Sigmoid.membership F (fin i) (fin sl) (fin h) (fin x) = fin (Mu.sigmoid F i sl h x) := by
+  unfold Gen.Term.Sigmoid.membership Mu.sigmoid
+  have hden : 1 + F.exp (-sl * (x - i)) ≠ 0 := by have := hexp (-sl * (x - i)); intro h0; linarith
+  simp only [isnan_fin, sel_false, mul_fin, mul_one, sub_fin, neg_fin, exp_fin, add_fin, div_fin _ _ hden]
+
+theorem sigmoidDifference_fin (F : Fn α) (hexp : ∀ a : α, 0 < F.exp a) (l r f rt h x : α) :
+    Gen.Term.SigmoidDifference.membership F (fin l) (fin r) (fin f) (fin rt) (fin h) (fin x) =
+      fin (Mu.sigmoidDifference F l r f rt h x) := by
+  unfold Gen.Term.SigmoidDifference.membership Mu.sigmoidDifference Mu.sigmoid
+  have hd1 : 1 + F.exp (-r * (x - l)) ≠ 0 := by have := hexp (-r * (x - l)); intro h0; linarith
+  have hd2 : 1 + F.exp (-f * (x - rt)) ≠ 0 := by have := hexp (-f * (x - rt)); intro h0; linarith
+  simp only [isnan_fin, sel_false, mul_fin, mul_one, sub_fin, neg_fin, exp_fin, add_fin, div_fin _ _ hd1,
+    div_fin _ _ hd2, abs_fin]
+
+theorem sigmoidProduct_fin (F : Fn α) (hexp : ∀ a : α, 0 < F.exp a) (l r f rt h x : α) :
+    Gen.Term.SigmoidProduct.membership F (fin l) (fin r) (fin f) (fin rt) (fin h) (fin x) =
+      fin (Mu.sigmoidProduct F l r f rt h x) := by
+  unfold Gen.Term.SigmoidProduct.membership Mu.sigmoidProduct Mu.sigmoid
+  have hd1 : 1 + F.exp (-r * (x - l)) ≠ 0 := by have := hexp (-r * (x - l)); intro h0; linarith
+  have hd2 : 1 + F.exp (-f * (x - rt)) ≠ 0 := by have := hexp (-f * (x - rt)); intro h0; linarith
+  simp only [isnan_fin, sel_false, mul_fin, mul_one, sub_fin, neg_fin, exp_fin, add_fin, div_fin _ _ hd1,
+    div_fin _ _ hd2]
+
+theorem spike_fin (F : Fn α) (c w h x : α) (hw : w ≠ 0) :
+    Gen.Term.Spike.membership F (fin c) (fin w) (fin h) (fin x) = fin (Mu.spike F c w h x) := by
+  unfold Gen.Term.Spike.membership Mu.spike
+  simp only [isnan_fin, sel_false, mul_fin, mul_one, sub_fin, neg_fin, exp_fin, abs_fin, div_fin _ _ hw]
 
 end TermTie
